@@ -297,15 +297,19 @@ Proof.
   apply goc_eqb_eq. exact H.
 Qed.
 
-(* ---------- the guard is needed: the known finding ---------- *)
+(* ---------- the guard used to be needed: the finding, now fixed ---------- *)
+(* Before the fix "CanonicalPath is idempotent" the request "/a /b/.." was looked up under "/a " and
+   published under "/a", so the same request pulled a second time (the one-pass body is not idempotent:
+   CanonProofs.canonical_once_not_idem).  With the repaired CanonicalPath the request is stable and
+   the second request finds the stream of the first. *)
 Definition any_factory : factory := {| f_can := fun _ => true; f_ok := fun _ _ => true; f_real := false |}.
 Definition unstable_req : bytes := [47; 97; 32; 47; 98; 47; 46; 46].          (* "/a /b/.." *)
 Definition unstable_tbl : table := [ {| r_pat := [47; 97]; r_url := [117]; r_keep := true |} ].
 
-Theorem publish_unstable_refuted :
+Theorem publish_unstable_fixed :
   let st := {| ps_reg := []; ps_tbl := unstable_tbl; ps_next := 0 |} in
-  pinv st = true /\ req_stable unstable_req = false /\
+  pinv st = true /\ req_stable unstable_req = true /\
   let st1 := fst (pstep (fun _ => true) [any_factory] st (PReq unstable_req)) in
   snd (pstep (fun _ => true) [any_factory] st (PReq unstable_req)) = POReq (GCreated [47; 97] [117] 0 true) (Some 0) [] /\
-  snd (pstep (fun _ => true) [any_factory] st1 (PReq unstable_req)) = POReq (GCreated [47; 97] [117] 0 true) (Some 1) [].
+  snd (pstep (fun _ => true) [any_factory] st1 (PReq unstable_req)) = POReq (GExisting 0) (Some 0) [].
 Proof. vm_compute. repeat split. Qed.
